@@ -20,12 +20,30 @@
 //! action the translator finds to have a scope effect and that no parse exercised is reported (the tie would
 //! have a hole).  Failed parses (every prefix of the corpus texts and a few garbled variants) are observed and
 //! counted — the property does not speak of them.
+//!
+//! Repeatability at the model level (`model_repeatability`): generated models — a decision table whose input
+//! expressions, input values, input entries, output entries, output values and default output entries read the
+//! input data, a knowledge model (literal or decision table over its parameters), a literal decision over both, a
+//! boxed context / invocation, decision services with and without input decisions, a decision calling a service —
+//! are built ONCE and every invocable is evaluated on that one `ModelEvaluator` over the sequence A, B, A, C, B of
+//! input contexts (B and C differ from A in a random non-empty subset of the entries), the invocables interleaved;
+//! every answer must be the answer of a FRESHLY built evaluator given that single call, and the input context must
+//! print the same afterwards.  The same for the decision table alone through `build_decision_table_evaluator`.
+//!
+//! Repeatability over long histories of one thread (`long_sequences`): every block runs in a thread of its own
+//! (thread-wide state starts clean and does not leak into the other families).  A block first evaluates a fixed set
+//! of expressions (invocations of user-defined functions in both call forms, recursion, lambdas given to built-ins,
+//! loops, filters, contexts, the first texts of the corpus, generated texts), then evaluates a few hundred to a few
+//! thousand expressions that fail in one particular way (or, in the mixed blocks, in every way) alternating with
+//! succeeding ones — as separate parse-and-evaluate calls and inside one `for i in 1..300 return [fail, ok]` — and
+//! then evaluates the fixed set again, through the parser and through the evaluators prepared at the start: every
+//! value must be the first value.  The loops and the fixed set are also compared with the Lean model.
 
 use crate::report::{Kind, Report};
 use crate::rng::Rng;
 use crate::sexp::Sexp;
 use crate::util::guarded;
-use crate::vals::ast_sexp;
+use crate::vals::{ast_sexp, value_sexp};
 use crate::Cfg;
 use dmntk_feel::context::FeelContext;
 use dmntk_feel::values::Value;
@@ -38,6 +56,13 @@ pub fn run(cfg: &Cfg) -> Report {
   let thorough = cfg.tier == "thorough";
   crate::c04::run_graphs(cfg, &mut rep, if thorough { 1500 } else { 150 }, false, "scope-");
   parse_families(cfg, &mut rep);
+  let t0 = std::time::Instant::now();
+  model_repeatability(cfg, &mut rep);
+  let t1 = std::time::Instant::now();
+  long_sequences(cfg, &mut rep);
+  if std::env::var("VHARNESS_C13_TRACE").is_ok() {
+    eprintln!("model_repeatability {} ms, long_sequences {} ms", (t1 - t0).as_millis(), t1.elapsed().as_millis());
+  }
   rep
 }
 
@@ -471,6 +496,1075 @@ pub fn parse_families(cfg: &Cfg, rep: &mut Report) {
       "failed_parses_observed": failed_parses,
       "after_failed_parse": leftovers,
       "failed_parse_example": leftover_sample,
+    }),
+  );
+}
+
+// ------------------------------------------------------------------------------------------------------------
+// repeatability at the model level: one prepared evaluator, several input contexts
+
+const MHEAD: &str = r#"<?xml version="1.0" encoding="UTF-8"?><definitions namespace="ns" name="m" id="_m" xmlns="https://www.omg.org/spec/DMN/20191111/MODEL/">"#;
+
+fn xe(s: &str) -> String {
+  crate::c03::xml_escape(s)
+}
+
+/// A decision table over the names `nums` (numbers) and `strs` (strings) in which every kind of cell may read them.
+/// `flags` collects which kinds of cells of this table do.
+fn gen_dt(rng: &mut Rng, nums: &[&str], strs: &[&str], flags: &mut BTreeSet<&'static str>) -> String {
+  const POLICIES: [(&str, Option<&str>); 11] = [
+    ("UNIQUE", None),
+    ("ANY", None),
+    ("PRIORITY", None),
+    ("FIRST", None),
+    ("RULE ORDER", None),
+    ("OUTPUT ORDER", None),
+    ("COLLECT", None),
+    ("COLLECT", Some("SUM")),
+    ("COLLECT", Some("MIN")),
+    ("COLLECT", Some("MAX")),
+    ("COLLECT", Some("COUNT")),
+  ];
+  let (hp, agg) = *rng.pick(&POLICIES);
+  let prioritising = hp == "PRIORITY" || hp == "OUTPUT ORDER";
+  let n_in = 1 + rng.below(2) as usize;
+  let n_out = if agg.is_some() { 1 } else { 1 + rng.below(2) as usize };
+  let n_rules = rng.below(5) as usize;
+  let mut s = format!("<decisionTable hitPolicy=\"{}\"", hp);
+  if let Some(a) = agg {
+    s.push_str(&format!(" aggregation=\"{}\"", a));
+  }
+  s.push('>');
+  let mut in_num = vec![];
+  for _ in 0..n_in {
+    let is_num = strs.is_empty() || rng.chance(2, 3);
+    in_num.push(is_num);
+    let (n, m) = (*rng.pick(nums), *rng.pick(nums));
+    let e = if is_num {
+      match rng.below(6) {
+        0 | 1 => n.to_string(),
+        2 => format!("{} + {}", n, m),
+        3 => format!("{} * 2", n),
+        4 => format!("if {} > {} then {} else {}", n, m, n, m),
+        _ => format!("{} - {}", n, m),
+      }
+    } else {
+      let t = *rng.pick(strs);
+      if rng.chance(3, 4) {
+        t.to_string()
+      } else {
+        format!("{} + \"x\"", t)
+      }
+    };
+    s.push_str(&format!("<input><inputExpression><text>{}</text></inputExpression>", xe(&e)));
+    if rng.chance(1, 4) {
+      let iv = if is_num {
+        match rng.below(3) {
+          0 => "[0..40]".to_string(),
+          1 => ">= 0".to_string(),
+          _ => {
+            flags.insert("input values read the input data");
+            format!("{}, 0, 1, 2, 3, 4, 5, 6", m)
+          }
+        }
+      } else if rng.chance(1, 2) {
+        "\"a\",\"b\",\"c\",\"ax\",\"bx\",\"cx\"".to_string()
+      } else {
+        flags.insert("input values read the input data");
+        format!("{}, \"a\"", rng.pick(strs))
+      };
+      s.push_str(&format!("<inputValues><text>{}</text></inputValues>", xe(&iv)));
+    }
+    s.push_str("</input>");
+  }
+  let mut out_num = vec![];
+  for k in 0..n_out {
+    let is_num = strs.is_empty() || matches!(agg, Some("SUM") | Some("MIN") | Some("MAX")) || rng.chance(2, 3);
+    out_num.push(is_num);
+    s.push_str("<output");
+    if n_out > 1 || rng.chance(1, 2) {
+      s.push_str(&format!(" name=\"o{}\"", k + 1));
+    }
+    s.push('>');
+    let (n, m) = (*rng.pick(nums), *rng.pick(nums));
+    if rng.chance(if prioritising { 4 } else { 2 }, 6) {
+      let ov = if is_num {
+        match rng.below(6) {
+          0 => "1, 2, 3, 4".to_string(),
+          1 => "4, 3, 2, 1".to_string(),
+          2 => format!("{}, 1, 2, 3, 4", n),
+          3 => format!("4, 3, 2, 1, {}", n),
+          4 => format!("{}, {}, 1, 2", n, m),
+          _ => format!("{} + 1, 4, 3, 2, 1, 0, 5, 6, 7", n),
+        }
+      } else {
+        let t = if strs.is_empty() { "\"a\"" } else { *rng.pick(strs) };
+        match rng.below(4) {
+          0 => "\"a\", \"b\", \"c\"".to_string(),
+          1 => "\"c\", \"b\", \"a\"".to_string(),
+          2 => format!("{}, \"a\", \"b\", \"c\"", t),
+          _ => format!("\"c\", \"b\", \"a\", {} + \"x\", {}", t, t),
+        }
+      };
+      if ov.chars().any(|c| c == 'i' || c == 'p' || c == 'q' || c == 's') {
+        flags.insert("output values read the input data");
+      }
+      s.push_str(&format!("<outputValues><text>{}</text></outputValues>", xe(&ov)));
+    }
+    if rng.chance(2, 3) {
+      let d = if rng.chance(3, 4) {
+        flags.insert("default output entry reads the input data");
+        if is_num {
+          match rng.below(4) {
+            0 | 1 => n.to_string(),
+            2 => format!("{} + 1", n),
+            _ => format!("{} * {}", n, m),
+          }
+        } else {
+          let t = *rng.pick(strs);
+          if rng.chance(1, 2) {
+            t.to_string()
+          } else {
+            format!("{} + \"!\"", t)
+          }
+        }
+      } else if is_num {
+        format!("{}", rng.range(1, 4))
+      } else {
+        "\"b\"".to_string()
+      };
+      s.push_str(&format!("<defaultOutputEntry><text>{}</text></defaultOutputEntry>", xe(&d)));
+    }
+    s.push_str("</output>");
+  }
+  for _ in 0..n_rules {
+    s.push_str("<rule>");
+    for is_num in &in_num {
+      let k = rng.range(0, 6);
+      let m = *rng.pick(nums);
+      let e = if *is_num {
+        match rng.below(11) {
+          0 | 1 => "-".to_string(),
+          2 => format!("< {}", k),
+          3 => format!(">= {}", k),
+          4 => format!("[{}..{}]", k, k + rng.range(0, 4)),
+          5 => format!("{}", k),
+          6 => format!("not({})", k),
+          7 => format!("< {}", m),
+          8 => format!(">= {}", m),
+          9 => m.to_string(),
+          _ => format!("[{}..{}]", m, k + 3),
+        }
+      } else {
+        match rng.below(6) {
+          0 => "-".to_string(),
+          1 => "\"a\"".to_string(),
+          2 => "\"a\",\"b\"".to_string(),
+          3 => "not(\"a\")".to_string(),
+          4 => "\"cx\",\"c\"".to_string(),
+          _ => rng.pick(strs).to_string(),
+        }
+      };
+      if e.chars().any(|c| c == 'i' || c == 'p' || c == 'q' || c == 's') {
+        flags.insert("input entries read the input data");
+      }
+      s.push_str(&format!("<inputEntry><text>{}</text></inputEntry>", xe(&e)));
+    }
+    for is_num in &out_num {
+      let (n, m) = (*rng.pick(nums), *rng.pick(nums));
+      let e = if *is_num {
+        match rng.below(6) {
+          0 | 1 | 2 => format!("{}", rng.range(1, 4)),
+          3 => n.to_string(),
+          4 => format!("{} + {}", n, rng.range(1, 3)),
+          _ => format!("{} * {}", n, m),
+        }
+      } else {
+        match rng.below(5) {
+          0 | 1 | 2 => format!("\"{}\"", rng.pick(&["a", "b", "c"])),
+          3 => rng.pick(strs).to_string(),
+          _ => format!("{} + \"x\"", rng.pick(strs)),
+        }
+      };
+      if !e.starts_with('"') && e.chars().any(|c| c == 'i' || c == 'p' || c == 'q' || c == 's') {
+        flags.insert("output entries read the input data");
+      }
+      s.push_str(&format!("<outputEntry><text>{}</text></outputEntry>", xe(&e)));
+    }
+    s.push_str("</rule>");
+  }
+  s.push_str("</decisionTable>");
+  s
+}
+
+fn lit_xml(t: &str) -> String {
+  format!("<literalExpression><text>{}</text></literalExpression>", xe(t))
+}
+
+struct GenModel {
+  xml: String,
+  /// invocable name, what it is (for the signature)
+  invocables: Vec<(&'static str, &'static str)>,
+  flags: BTreeSet<&'static str>,
+}
+
+/// Inputs `i1`, `i3` (numbers) and `i2` (string); decision `T` (decision table), knowledge model `K(p, q, s)`,
+/// decisions `L` (literal over inputs, `T` and `K`), `C` (boxed context with an invocation of `K`), `U` (calls the
+/// service `S` as a function), services `S` (output `L`, `T` encapsulated) and `S2` (output `L`, `T` an input decision).
+fn gen_model(rng: &mut Rng) -> GenModel {
+  let mut flags = BTreeSet::new();
+  let mut x = String::from(MHEAD);
+  for (n, t) in [("i1", "number"), ("i2", "string"), ("i3", "number")] {
+    // (input data must have a type the builder knows; a value of another type arrives as null)
+    let tr = format!(" typeRef=\"{}\"", t);
+    x.push_str(&format!("<inputData name=\"{}\" id=\"_{}\"><variable name=\"{}\"{}/></inputData>", n, n, n, tr));
+  }
+  let req_inputs = |d: &str| {
+    let mut s = String::new();
+    for n in ["i1", "i2", "i3"] {
+      s.push_str(&format!("<informationRequirement id=\"{}_{}\"><requiredInput href=\"#_{}\"/></informationRequirement>", d, n, n));
+    }
+    s
+  };
+  let req_dec = |d: &str, q: &str| format!("<informationRequirement id=\"{}_{}\"><requiredDecision href=\"#{}\"/></informationRequirement>", d, q, q);
+  let req_know = |d: &str, q: &str| format!("<knowledgeRequirement id=\"{}_k{}\"><requiredKnowledge href=\"#{}\"/></knowledgeRequirement>", d, q, q);
+  // T
+  let t_var_type = if rng.chance(1, 4) { " typeRef=\"number\"" } else { "" };
+  x.push_str(&format!("<decision name=\"T\" id=\"_t\"><variable name=\"T\"{}/>{}", t_var_type, req_inputs("_t")));
+  x.push_str(&gen_dt(rng, &["i1", "i3"], &["i2"], &mut flags));
+  x.push_str("</decision>");
+  // K
+  x.push_str("<businessKnowledgeModel name=\"K\" id=\"_k\"><variable name=\"K\"/><encapsulatedLogic>");
+  let ktyped = rng.chance(1, 2);
+  for (n, t) in [("p", "number"), ("q", "number"), ("s", "string")] {
+    let tr = if ktyped { format!(" typeRef=\"{}\"", t) } else { String::new() };
+    x.push_str(&format!("<formalParameter name=\"{}\"{}/>", n, tr));
+  }
+  if rng.chance(1, 2) {
+    flags.insert("knowledge model with a decision table");
+    x.push_str(&gen_dt(rng, &["p", "q"], &["s"], &mut flags));
+  } else {
+    x.push_str(&lit_xml(*rng.pick(&["p + q", "if p > q then [p, s] else [q, s]", "{a: p * 2, b: s + \"k\", c: a + q}", "for k in 1..3 return p * k + q", "[p, q][item > 2]"])));
+  }
+  x.push_str("</encapsulatedLogic></businessKnowledgeModel>");
+  // L
+  x.push_str(&format!("<decision name=\"L\" id=\"_l\"><variable name=\"L\"/>{}{}{}", req_dec("_l", "_t"), req_inputs("_l"), req_know("_l", "_k")));
+  x.push_str(&lit_xml(*rng.pick(&[
+    "[T, K(i1, i3, i2)]",
+    "{a: T, b: K(i3, i1, i2), c: i1 + i3}",
+    "if i1 > i3 then T else K(i1, i1, i2)",
+    "K(q: i1, p: i3, s: i2)",
+    "[T, i1 * i3, i2 + \"l\"]",
+    "for k in [i1, i3] return [k, K(k, i3, i2)]",
+  ])));
+  x.push_str("</decision>");
+  // C
+  x.push_str(&format!("<decision name=\"C\" id=\"_c\"><variable name=\"C\"/>{}{}", req_inputs("_c"), req_know("_c", "_k")));
+  let invocation = format!(
+    "<invocation>{}<binding><parameter name=\"p\"/>{}</binding><binding><parameter name=\"q\"/>{}</binding><binding><parameter name=\"s\"/>{}</binding></invocation>",
+    lit_xml("K"),
+    lit_xml(*rng.pick(&["i1", "i1 + 1", "i3"])),
+    lit_xml(*rng.pick(&["i3", "i1 * i3", "2"])),
+    lit_xml(*rng.pick(&["i2", "i2 + \"c\""]))
+  );
+  if rng.chance(1, 2) {
+    x.push_str(&invocation);
+  } else {
+    flags.insert("boxed context");
+    x.push_str(&format!(
+      "<context><contextEntry><variable name=\"x\"/>{}</contextEntry><contextEntry><variable name=\"y\"/>{}</contextEntry><contextEntry>{}</contextEntry></context>",
+      lit_xml("i1 * 2"),
+      invocation,
+      lit_xml(*rng.pick(&["[x, y, i3]", "{a: x + i3, b: y}", "if x > i3 then y else i2"]))
+    ));
+  }
+  x.push_str("</decision>");
+  // U
+  x.push_str(&format!("<decision name=\"U\" id=\"_u\"><variable name=\"U\"/>{}{}", req_inputs("_u"), req_know("_u", "_s")));
+  x.push_str(&lit_xml(*rng.pick(&["S(i1, i2, i3)", "[S(i1, i2, i3), S(i3, i2, i1)]", "S(i3: i1, i2: i2, i1: i3)"])));
+  x.push_str("</decision>");
+  // S, S2
+  x.push_str("<decisionService name=\"S\" id=\"_s\"><variable name=\"S\"/><outputDecision href=\"#_l\"/><encapsulatedDecision href=\"#_t\"/><inputData href=\"#_i1\"/><inputData href=\"#_i2\"/><inputData href=\"#_i3\"/></decisionService>");
+  x.push_str("<decisionService name=\"S2\" id=\"_s2\"><variable name=\"S2\"/><outputDecision href=\"#_l\"/><inputDecision href=\"#_t\"/><inputData href=\"#_i1\"/><inputData href=\"#_i2\"/><inputData href=\"#_i3\"/></decisionService>");
+  x.push_str("</definitions>");
+  GenModel {
+    xml: x,
+    invocables: vec![
+      ("T", "decision with a decision table"),
+      ("K", "knowledge model"),
+      ("L", "literal decision over a decision table and a knowledge model"),
+      ("C", "boxed context / invocation"),
+      ("U", "decision calling a decision service"),
+      ("S", "decision service"),
+      ("S2", "decision service with an input decision"),
+    ],
+    flags,
+  }
+}
+
+/// Always-run models: the decision tables of the kind the generator makes, minimised (price list with a default
+/// output entry that is the base price; priorities given by the input; an output entry and an input entry reading
+/// another input).
+fn model_corpus() -> Vec<GenModel> {
+  let mk = |table: &str| {
+    let mut x = String::from(MHEAD);
+    for (n, t) in [("Customer", "string"), ("Base", "number")] {
+      x.push_str(&format!("<inputData name=\"{}\" id=\"_{}\"><variable name=\"{}\" typeRef=\"{}\"/></inputData>", n, n, n, t));
+    }
+    x.push_str("<decision name=\"T\" id=\"_t\"><variable name=\"T\"/>");
+    for n in ["Customer", "Base"] {
+      x.push_str(&format!("<informationRequirement id=\"_t{}\"><requiredInput href=\"#_{}\"/></informationRequirement>", n, n));
+    }
+    x.push_str(table);
+    x.push_str("</decision></definitions>");
+    GenModel { xml: x, invocables: vec![("T", "decision with a decision table")], flags: BTreeSet::new() }
+  };
+  vec![
+    mk("<decisionTable hitPolicy=\"UNIQUE\"><input><inputExpression><text>Customer</text></inputExpression></input><output><defaultOutputEntry><text>Base</text></defaultOutputEntry></output><rule><inputEntry><text>\"Business\"</text></inputEntry><outputEntry><text>Base * 0.5</text></outputEntry></rule></decisionTable>"),
+    mk("<decisionTable hitPolicy=\"PRIORITY\"><input><inputExpression><text>Customer</text></inputExpression></input><output><outputValues><text>Base, 1, 2, 3</text></outputValues></output><rule><inputEntry><text>-</text></inputEntry><outputEntry><text>1</text></outputEntry></rule><rule><inputEntry><text>-</text></inputEntry><outputEntry><text>2</text></outputEntry></rule><rule><inputEntry><text>-</text></inputEntry><outputEntry><text>3</text></outputEntry></rule></decisionTable>"),
+    mk("<decisionTable hitPolicy=\"COLLECT\"><input><inputExpression><text>Base * 2</text></inputExpression><inputValues><text>Base * 2, 0</text></inputValues></input><output/><rule><inputEntry><text>&gt; Base</text></inputEntry><outputEntry><text>Customer + \"!\"</text></outputEntry></rule><rule><inputEntry><text>-</text></inputEntry><outputEntry><text>Base</text></outputEntry></rule></decisionTable>"),
+  ]
+}
+
+fn num(n: i64) -> Value {
+  Value::Number(FeelNumber::from(n))
+}
+
+fn ctx_from(entries: &[(String, Value)]) -> FeelContext {
+  let mut c = FeelContext::default();
+  for (n, v) in entries {
+    c.set_entry(&Name::from(n.as_str()), v.clone());
+  }
+  c
+}
+
+fn show(v: &Value) -> String {
+  match value_sexp(v) {
+    Some(s) => s.to_string(),
+    None => format!("(display {})", Sexp::str(&v.to_string())),
+  }
+}
+
+pub fn model_repeatability(cfg: &Cfg, rep: &mut Report) {
+  use dmntk_model_evaluator::ModelEvaluator;
+  let thorough = cfg.tier == "thorough";
+  let mut rng = Rng::new(cfg.seed ^ 0xC13_0DE1);
+  let n_models = if thorough { 3_000 } else { 260 };
+  let mut models = model_corpus();
+  let n_corpus = models.len();
+  for _ in 0..n_models {
+    models.push(gen_model(&mut rng));
+  }
+  if std::env::var("VHARNESS_C13_TRACE").is_ok() {
+    eprintln!("model_repeatability starts");
+  }
+  let mut calls = 0u64;
+  let mut input_dependent = 0u64;
+  let mut unbuildable = 0u64;
+  for (mi, m) in models.iter().enumerate() {
+    crate::util::note_case(&m.xml);
+    let defs = match guarded(|| dmntk_model::parse(&m.xml)) {
+      Ok(Ok(d)) => d,
+      _ => {
+        unbuildable += 1;
+        rep.hit("model-repeat:model rejected by the parser");
+        continue;
+      }
+    };
+    let build = || match guarded(|| ModelEvaluator::new(&defs)) {
+      Ok(Ok(me)) => Some(me),
+      _ => None,
+    };
+    let shared = match build() {
+      Some(me) => me,
+      None => {
+        unbuildable += 1;
+        rep.hit("model-repeat:model rejected by the builder");
+        if std::env::var("VHARNESS_C13_TRACE").is_ok() {
+          eprintln!("REJECTED {:?} {}", ModelEvaluator::new(&defs).err().map(|e| e.to_string()), m.xml);
+        }
+        continue;
+      }
+    };
+    for f in &m.flags {
+      rep.hit(&format!("model-repeat:shape:{}", f));
+    }
+    // ---- the contexts A, B, C
+    let corpus_model = mi < n_corpus;
+    let draw = |name: &str, rng: &mut Rng| -> Value {
+      match name {
+        "Customer" => Value::String(rng.pick(&["Private", "Business"]).to_string()),
+        "Base" => num(*rng.pick(&[100, 250, 1, 2, 3])),
+        "i2" | "s" => match rng.below(12) {
+          0 => Value::Null(None),
+          1 => num(1),
+          _ => Value::String(rng.pick(&["a", "b", "c"]).to_string()),
+        },
+        _ => match rng.below(14) {
+          0 => Value::Null(None),
+          1 => Value::String("a".into()),
+          _ => num(rng.range(0, 6)),
+        },
+      }
+    };
+    let names: Vec<&str> = if corpus_model { vec!["Customer", "Base"] } else { vec!["i1", "i2", "i3", "p", "q", "s", "T"] };
+    let a: Vec<(String, Value)> = names.iter().map(|n| (n.to_string(), draw(n, &mut rng))).collect();
+    let vary = |from: &Vec<(String, Value)>, rng: &mut Rng| -> Vec<(String, Value)> {
+      let mut out = from.clone();
+      let mut changed = false;
+      // a random non-empty subset of the entries gets other values — often a single one
+      let single = rng.chance(1, 2);
+      let one = rng.below(out.len() as u64) as usize;
+      for (k, (n, v)) in out.iter_mut().enumerate() {
+        if if single { k == one } else { rng.chance(1, 2) } {
+          for _ in 0..8 {
+            let w = draw(n, rng);
+            if show(&w) != show(v) {
+              *v = w;
+              changed = true;
+              break;
+            }
+          }
+        }
+      }
+      if !changed {
+        let (n, v) = &mut out[one];
+        *v = if n == "Customer" || n == "i2" || n == "s" { Value::String("zz".into()) } else { num(9) };
+      }
+      out
+    };
+    let b = vary(&a, &mut rng);
+    let c = vary(&a, &mut rng);
+    let ctxs = [ctx_from(&a), ctx_from(&b), ctx_from(&c)];
+    let order = [0usize, 1, 0, 2, 1];
+    let letter = ["A", "B", "C"];
+    // ---- the calls: every invocable at every step, the invocables in an order of the model's own
+    let mut invs = m.invocables.clone();
+    for k in (1..invs.len()).rev() {
+      let j = rng.below(k as u64 + 1) as usize;
+      invs.swap(k, j);
+    }
+    let mut sequence: Vec<(usize, usize)> = vec![]; // (invocable, context)
+    if rng.chance(1, 2) {
+      for &ci in &order {
+        for ii in 0..invs.len() {
+          sequence.push((ii, ci));
+        }
+      }
+    } else {
+      for ii in 0..invs.len() {
+        for &ci in &order {
+          sequence.push((ii, ci));
+        }
+      }
+    }
+    let describe = |upto: &[(usize, usize)]| upto.iter().map(|(ii, ci)| format!("{}({} = {})", invs[*ii].0, letter[*ci], ctxs[*ci])).collect::<Vec<_>>().join("; ");
+    let mut first_answers: BTreeMap<(usize, usize), String> = BTreeMap::new();
+    let mut reported: BTreeSet<usize> = BTreeSet::new();
+    for (k, &(ii, ci)) in sequence.iter().enumerate() {
+      let (inv, what) = invs[ii];
+      let ctx = &ctxs[ci];
+      let before = ctx.to_string();
+      let got = guarded(|| shared.evaluate_invocable(inv, ctx));
+      let after = ctx.to_string();
+      calls += 1;
+      let fresh = match build() {
+        Some(me) => guarded(|| me.evaluate_invocable(inv, ctx)),
+        None => continue,
+      };
+      let (got_s, fresh_s) = match (&got, &fresh) {
+        (Ok(g), Ok(f)) => (show(g), show(f)),
+        (Err(p), Ok(f)) => (format!("(panic {})", p), show(f)),
+        // a panic of the fresh evaluator as well: not a matter of repeatability
+        _ => {
+          rep.hit("model-repeat:panic in the fresh evaluator");
+          continue;
+        }
+      };
+      let key = format!("model-repeat|{}|{}|{}", m.xml, inv, before);
+      rep.case(&key, ci != 0 || k >= invs.len());
+      rep.hit(&format!("model-repeat:invocable:{}:{}", what, if fresh_s == "null" { "null" } else { "a value" }));
+      if let Some(prev) = first_answers.get(&(ii, 0)) {
+        if ci != 0 && *prev != fresh_s {
+          input_dependent += 1;
+          rep.hit("model-repeat:the answer to this context differs from the answer to A");
+        }
+      }
+      first_answers.entry((ii, ci)).or_insert_with(|| fresh_s.clone());
+      if after != before {
+        rep.disagree(
+          Kind::ImplVsSpec,
+          "model_input_untouched",
+          &format!("evaluating an invocable changed the caller's input context ({})", what),
+          &format!("{} ;; {}({})", m.xml, inv, before),
+          &after,
+          &before,
+        );
+      }
+      if got_s != fresh_s && !reported.contains(&ii) {
+        reported.insert(ii);
+        // the shortest history that shows it: one earlier call, then this one
+        let mut history = describe(&sequence[..=k]);
+        for &(ji, jc) in sequence[..k].iter() {
+          if let Some(me) = build() {
+            let _ = guarded(|| me.evaluate_invocable(invs[ji].0, &ctxs[jc]));
+            if let Ok(v) = guarded(|| me.evaluate_invocable(inv, ctx)) {
+              if show(&v) != fresh_s {
+                history = describe(&[(ji, jc), (ii, ci)]);
+                break;
+              }
+            }
+          }
+        }
+        rep.disagree(
+          Kind::ImplVsSpec,
+          "model_repeatable",
+          &format!("an invocable answers differently on an evaluator that has answered other input data before than on a freshly built evaluator ({})", what),
+          &format!("{} ;; one ModelEvaluator, in this order: {}", m.xml, history),
+          &got_s,
+          &fresh_s,
+        );
+      }
+      if rep.samples.len() < 12 && mi >= n_corpus && k == sequence.len() - 1 && !fresh_s.contains("null") {
+        rep.sample(json!({"family": "model-level repeatability", "model": m.xml, "invocable": inv, "input": before, "one evaluator after the whole sequence": got_s, "fresh evaluator": fresh_s}));
+      }
+    }
+    // ---- the decision table of T alone, through build_decision_table_evaluator: built once in the scope of A
+    for d in defs.decisions() {
+      if let Some(dmntk_model::model::ExpressionInstance::DecisionTable(dt)) = d.decision_logic() {
+        let build_direct = |ctx: &FeelContext| -> Option<dmntk_feel::Evaluator> {
+          let scope: Scope = ctx.clone().into();
+          match guarded(|| dmntk_model_evaluator::build_decision_table_evaluator(&scope, dt)) {
+            Ok(Ok(ev)) => Some(ev),
+            _ => None,
+          }
+        };
+        let shared_ev = match build_direct(&ctxs[0]) {
+          Some(ev) => ev,
+          None => {
+            rep.hit("model-repeat:direct:table rejected");
+            continue;
+          }
+        };
+        let mut done = false;
+        for (k, &ci) in order.iter().enumerate() {
+          let scope: Scope = ctxs[ci].clone().into();
+          let before = scope.to_string();
+          let got = guarded(|| shared_ev(&scope));
+          let after = scope.to_string();
+          let fresh = build_direct(&ctxs[ci]).map(|ev| {
+            let s2: Scope = ctxs[ci].clone().into();
+            guarded(|| ev(&s2))
+          });
+          calls += 1;
+          rep.case(&format!("model-repeat-direct|{}|{}", m.xml, before), k > 0);
+          rep.hit("model-repeat:invocable:decision table through build_decision_table_evaluator");
+          if after != before {
+            rep.disagree(Kind::ImplVsSpec, "model_input_untouched", "evaluating a prepared decision table changed the scope", &format!("{} ;; {}", m.xml, before), &after, &before);
+          }
+          if let (Ok(g), Some(Ok(f))) = (&got, &fresh) {
+            if show(g) != show(f) && !done {
+              done = true;
+              rep.disagree(
+                Kind::ImplVsSpec,
+                "model_repeatable",
+                "a prepared decision table (build_decision_table_evaluator) answers differently after it has answered other input data than a freshly prepared one",
+                &format!("{} ;; one evaluator of the decision table, scopes in this order: {}", m.xml, order[..=k].iter().map(|c| format!("{} = {}", letter[*c], ctxs[*c])).collect::<Vec<_>>().join("; ")),
+                &show(g),
+                &show(f),
+              );
+            }
+          }
+        }
+      }
+    }
+  }
+  rep.extra.insert(
+    "model_repeatability".into(),
+    json!({"models": models.len(), "calls_on_shared_evaluators": calls, "calls_whose_answer_differs_from_the_answer_to_A": input_dependent, "models_not_built": unbuildable}),
+  );
+}
+
+// ------------------------------------------------------------------------------------------------------------
+// repeatability over long histories of one thread
+
+/// User-defined functions the expressions of the long sequences call: in the `wrapped` variant they are entries of
+/// a context literal around the expression (the Lean model evaluates that too), in the `scoped` variant they are
+/// entries of a context on top of the base scope.
+const PRELUDE: &str = "inc: function(x: number) x + 1, add: function(x: number, y: number) x + y, fact: function(n: number) if n > 1 then n * fact(n - 1) else 1, twice: function(f, v) f(f(v))";
+
+fn wrapped(e: &str) -> String {
+  format!("{{{}, r: {}}}.r", PRELUDE, e)
+}
+
+/// Every way an evaluation can fail (the value is null, or an error is reported): class, templates; `#` stands for
+/// the running number (a literal in separate calls, the loop variable inside a loop).
+fn failing_classes() -> Vec<(&'static str, Vec<&'static str>)> {
+  vec![
+    ("too few positional arguments", vec!["inc()", "add(#)", "fact()", "(function(a, b) a + b)(#)", "twice(inc)"]),
+    ("too many positional arguments", vec!["inc(#, #)", "add(#, 1, 2)", "(function() 1)(#)"]),
+    ("a named argument is missing", vec!["add(x: #)", "add(y: #)", "(function(a, b) a + b)(a: #)"]),
+    ("a named argument of another name", vec!["inc(z: #)", "add(x: #, z: 1)", "inc(x: #, y: 2)"]),
+    ("the callee is not a function", vec!["n2(#)", "nn(#)", "l1(#)", "c1(#)", "nn(x: #)", "s1(x: #)", "(1 + #)(2)", "twice(#, 1)"]),
+    ("an argument of the wrong type", vec!["inc(\"a\")", "inc(x: \"a\")", "add(#, \"a\")", "inc(null)", "inc([#, #])", "inc(x: [#, #])", "add(y: true, x: #)"]),
+    ("the body of the function fails", vec!["(function(x) x + \"a\")(#)", "(function(x) x.a.b)(#)", "(function(x) [1, 2][x + 2])(#)", "twice(inc, \"a\")", "(function(x) inc())(#)"]),
+    ("filter on null or by something that is neither a number nor a boolean", vec!["null[#]", "nn[item > #]", "nn[a = #]", "[1, 2, 3][\"a\"]", "[1, 2, 3][item + \"a\"]", "lc[a + \"x\"]", "{a: null}.a[#]"]),
+    ("index out of range", vec!["[1, 2, 3][# + 3]", "[1, 2, 3][0]", "[1, 2, 3][-(# + 3)]", "l0[1]"]),
+    ("path on a value without such an entry", vec!["n2.a", "(nn.a).b", "s1.b", "c1.zz", "lc.zz"]),
+    ("ill-typed arithmetic", vec!["# + \"a\"", "\"a\" - #", "-\"a\"", "true * #", "# / 0", "# ** \"a\"", "[#] + 1", "d1 * d1"]),
+    ("ill-typed comparison and logic", vec!["# < \"a\"", "# between \"a\" and 3", "# and \"a\"", "if # then 1 else 2", "# in \"a\"", "# = \"a\""]),
+    ("iteration over something that cannot be iterated", vec!["for x in \"a\"..\"c\" return x", "for x in nn return x + 1", "some x in [1, 2] satisfies x + #", "every x in nn satisfies x", "for x in #..\"b\" return x"]),
+    (
+      "built-in function with wrong arguments",
+      vec![
+        "substring()",
+        "substring(\"abc\", \"x\")",
+        "date(\"2021-02-30\")",
+        "abs()",
+        "abs(n: \"a\")",
+        "abs(q: #)",
+        "sum(\"a\", #)",
+        "string length(#)",
+        "sort([3, 1, 2], function(a) a)",
+        "sort([3, 1, 2], function(a, b) a + b)",
+        "matches(\"a\", \"(\")",
+        "number(\"a\", \",\", \",\")",
+      ],
+    ),
+    ("external function", vec!["(function(x) external {java: {class: \"a\", method signature: \"b\"}})(#)"]),
+    ("numeric overflow", vec!["10 ** 7000 * #", "-(10 ** 7000) - #"]),
+  ]
+}
+
+/// Succeeding expressions with their values written out (the specification side of the Ok steps and of the second
+/// components of the loops): template, value for the number n.
+fn ok_partners() -> Vec<(&'static str, fn(i64) -> String)> {
+  fn n(k: i64) -> String {
+    show(&num(k))
+  }
+  vec![
+    ("inc(#)", |i| n(i + 1)),
+    ("add(#, 1)", |i| n(i + 1)),
+    ("add(y: #, x: 2)", |i| n(i + 2)),
+    ("fact(4)", |_| n(24)),
+    ("(function(a, b) a - b)(b: #, a: 5)", |i| n(5 - i)),
+    ("twice(inc, #)", |i| n(i + 2)),
+    ("[1, 2, #][item > 1]", |i| if i > 1 { format!("(l {} {})", n(2), n(i)) } else { n(2) /* a filter result of one item is that item */ }),
+  ]
+}
+
+/// The expressions whose values must stay what they were.
+fn fixed_set(seed: u64) -> Vec<String> {
+  let mut v: Vec<String> = [
+    "inc(1)",
+    "add(1, 2)",
+    "add(y: 1, x: 2)",
+    "fact(5)",
+    "twice(inc, 1)",
+    "(function(a, b) a - b)(b: 1, a: 5)",
+    "for x in 1..3 return inc(x)",
+    "some x in [1, 2, 3] satisfies inc(x) > 3",
+    "{g: function(n) if n <= 0 then 0 else n + g(n - 1), r: g(10)}.r",
+    "sort([3, 1, 2], function(a, b) a < b)",
+    "[inc(), inc(1), add(1), add(1, 1)]",
+    "substring(\"hello\", 2, 3)",
+    "lc[b = 2].a",
+    "{a: 1, b: a + 1, c: b * 2}",
+  ]
+  .iter()
+  .map(|s| s.to_string())
+  .collect();
+  v.extend(crate::c01::corpus().iter().take(34).map(|s| s.to_string()));
+  let (_, vars, _) = crate::c01::base_scope();
+  let mut rng = Rng::new(seed ^ 0xF1_5E7);
+  let mut g = crate::c01::Gen { rng: &mut rng, fresh: 0 };
+  for i in 0..16 {
+    v.push(g.any(2 + (i % 2), &vars));
+  }
+  v
+}
+
+#[derive(Clone)]
+enum Role {
+  /// first evaluation of the i-th expression of the fixed set (also prepared, and evaluated through the prepared evaluator)
+  First(usize),
+  /// the i-th expression of the fixed set again
+  Again(usize),
+  Fail,
+  /// a succeeding expression and its written-out value
+  Ok(String),
+  /// one expression with a loop over fail / ok pairs: the written-out values of the second components
+  Loop(Vec<String>),
+}
+
+#[derive(Clone)]
+struct Step {
+  text: String,
+  role: Role,
+  /// have the request line for the Lean model made
+  ask: bool,
+}
+
+struct Obs {
+  implementation: String,
+  prepared: Option<String>,
+  request: Option<String>,
+}
+
+/// One history in a thread of its own.  `scoped`: the functions live in a context on top of the base scope.
+fn run_history(steps: Vec<Step>, scoped: bool) -> Option<std::thread::JoinHandle<Vec<Obs>>> {
+  std::thread::Builder::new().stack_size(64 << 20).spawn(move || {
+    let (_, _, mut ctxs) = crate::c01::base_scope();
+    if scoped {
+      let s = fresh_scope(&ctxs);
+      if let Value::Context(c) = crate::c09::eval_text(&s, &format!("{{{}}}", PRELUDE)) {
+        ctxs.push(c);
+      }
+    }
+    // the scope the prepared evaluators live in for the whole history
+    let persistent = fresh_scope(&ctxs);
+    let mut prepared: BTreeMap<usize, dmntk_feel::Evaluator> = BTreeMap::new();
+    let mut out = Vec::with_capacity(steps.len());
+    for st in &steps {
+      let text = if scoped { st.text.clone() } else { wrapped(&st.text) };
+      crate::util::note_case(&text);
+      let mut obs = Obs { implementation: String::new(), prepared: None, request: None };
+      if st.ask {
+        match crate::c01::run_case(&text, &ctxs, 40) {
+          Some(c) => {
+            obs.implementation = c.implementation;
+            obs.request = Some(c.request);
+          }
+          None => obs.implementation = "(unparsable)".into(),
+        }
+      } else {
+        let scope = fresh_scope(&ctxs);
+        let before = scope.to_string();
+        obs.implementation = match guarded(|| dmntk_feel_parser::parse_expression(&scope, &text, false)) {
+          Ok(Ok(node)) => match guarded(|| dmntk_feel_evaluator::evaluate(&scope, &node)) {
+            Ok(Ok(v)) => format!("(ok {} {})", show(&v), if scope.to_string() == before { "same" } else { "changed" }),
+            Ok(Err(_)) => "(builderror)".into(),
+            Err(m) => format!("(panic {})", Sexp::str(&m)),
+          },
+          Ok(Err(_)) => "(unparsable)".into(),
+          Err(m) => format!("(panic {})", Sexp::str(&m)),
+        };
+      }
+      match st.role {
+        Role::First(i) => {
+          if let Ok(Ok(node)) = guarded(|| dmntk_feel_parser::parse_expression(&persistent, &text, false)) {
+            if let Ok(Ok(ev)) = guarded(|| dmntk_feel_evaluator::prepare(&node)) {
+              obs.prepared = Some(match guarded(|| ev(&persistent)) {
+                Ok(v) => format!("(ok {})", show(&v)),
+                Err(m) => format!("(panic {})", Sexp::str(&m)),
+              });
+              prepared.insert(i, ev);
+            }
+          }
+        }
+        Role::Again(i) => {
+          if let Some(ev) = prepared.get(&i) {
+            obs.prepared = Some(match guarded(|| ev(&persistent)) {
+              Ok(v) => format!("(ok {})", show(&v)),
+              Err(m) => format!("(panic {})", Sexp::str(&m)),
+            });
+          }
+        }
+        _ => {}
+      }
+      out.push(obs);
+    }
+    out
+  }).ok()
+}
+
+fn subst(t: &str, with: &str) -> String {
+  t.replace('#', with)
+}
+
+pub fn long_sequences(cfg: &Cfg, rep: &mut Report) {
+  let thorough = cfg.tier == "thorough";
+  let mut rng = Rng::new(cfg.seed ^ 0x10_4C_5E9);
+  let fixed = fixed_set(cfg.seed);
+  let classes = failing_classes();
+  let oks = ok_partners();
+  let n_separate: usize = if thorough { 400 } else { 140 };
+  let n_loop: i64 = if thorough { 1000 } else { 300 };
+  let mut model = crate::model::Model::start(&cfg.driver);
+  let firsts = |ask: bool| fixed.iter().enumerate().map(|(i, t)| Step { text: t.clone(), role: Role::First(i), ask }).collect::<Vec<Step>>();
+  let agains = |only_core: bool| {
+    fixed
+      .iter()
+      .enumerate()
+      .filter(|(i, _)| !only_core || *i < 11)
+      .map(|(i, t)| Step { text: t.clone(), role: Role::Again(i), ask: false })
+      .collect::<Vec<Step>>()
+  };
+  // ---- the histories: (name, failing class for the signature, steps)
+  let mut histories: Vec<(String, String, Vec<Step>)> = vec![];
+  for (ci, (class, templates)) in classes.iter().enumerate() {
+    let mut steps = firsts(ci == 0);
+    for (ti, t) in templates.iter().enumerate() {
+      let (ok, value) = oks[(ci + ti) % oks.len()];
+      for i in 1..=n_separate {
+        let lit = i.to_string();
+        steps.push(Step { text: subst(t, &lit), role: Role::Fail, ask: i == 1 });
+        steps.push(Step { text: subst(ok, &lit), role: Role::Ok(value(i as i64)), ask: i == 1 });
+      }
+      steps.push(Step { text: format!("for i in 1..{} return [{}, {}]", n_loop, subst(t, "i"), subst(ok, "i")), role: Role::Loop((1..=n_loop).map(value).collect()), ask: true });
+      steps.extend(agains(true));
+    }
+    steps.extend(agains(false));
+    histories.push((format!("{} separate evaluations of each failing expression, each followed by a succeeding one, then one loop of {} iterations over such a pair", n_separate, n_loop), class.to_string(), steps));
+  }
+  // mixed histories: every class, random order, random numbers, the fixed set in between
+  let all_fail: Vec<&str> = classes.iter().flat_map(|(_, ts)| ts.iter().copied()).collect();
+  for _ in 0..(if thorough { 6 } else { 2 }) {
+    let mut steps = firsts(false);
+    let n = if thorough { 8000 } else { 3000 };
+    for _ in 0..n {
+      let number = rng.range(1, 400);
+      let lit = number.to_string();
+      match rng.below(20) {
+        0..=9 => steps.push(Step { text: subst(*rng.pick(&all_fail[..]), &lit), role: Role::Fail, ask: false }),
+        10..=16 => {
+          let (ok, value) = *rng.pick(&oks[..]);
+          steps.push(Step { text: subst(ok, &lit), role: Role::Ok(value(number)), ask: false })
+        }
+        17 | 18 => {
+          let i = rng.below(fixed.len() as u64) as usize;
+          steps.push(Step { text: fixed[i].clone(), role: Role::Again(i), ask: false });
+        }
+        _ => {
+          let k = *rng.pick(&[3, 40, 130, 300]);
+          let (ok, value) = *rng.pick(&oks[..]);
+          steps.push(Step { text: format!("for i in 1..{} return [{}, {}]", k, subst(*rng.pick(&all_fail[..]), "i"), subst(ok, "i")), role: Role::Loop((1..=k).map(value).collect()), ask: false });
+        }
+      }
+    }
+    steps.extend(agains(false));
+    histories.push(("failing expressions of every class, succeeding ones, loops over both and the fixed set in random order".to_string(), "every class".to_string(), steps));
+  }
+  let mut n_evaluations = 0u64;
+  let mut n_fail_null = 0u64;
+  let mut n_histories = 0u64;
+  let mut asked = 0u64;
+  // the histories are independent of each other (each has its own thread and its own scopes): eight at a time
+  let jobs: Vec<(usize, bool)> = (0..histories.len()).flat_map(|h| [(h, false), (h, true)]).collect();
+  let mut results: Vec<Vec<Obs>> = vec![];
+  for chunk in jobs.chunks(8) {
+    let handles: Vec<_> = chunk.iter().map(|(h, scoped)| run_history(histories[*h].2.clone(), *scoped)).collect();
+    for h in handles {
+      results.push(h.and_then(|h| h.join().ok()).unwrap_or_default());
+    }
+  }
+  let mut results = results.into_iter();
+  for (name, class, steps) in &histories {
+    for scoped in [false, true] {
+      let variant = if scoped {
+        "the functions inc, add, fact, twice are entries of a context on top of the base scope"
+      } else {
+        "every expression E is evaluated as {inc: …, add: …, fact: …, twice: …, r: E}.r in the base scope"
+      };
+      let obs = results.next().unwrap_or_default();
+      n_histories += 1;
+      if obs.len() != steps.len() {
+        // the thread of the history died: a panic outside the guarded calls (never on the unchanged tree)
+        rep.disagree(Kind::ImplVsSpec, "long_sequence", "a long history of evaluations in one thread ended abnormally", &format!("{} ({}); {}", name, class, variant), &format!("{} of {} steps", obs.len(), steps.len()), "all steps evaluated");
+        continue;
+      }
+      n_evaluations += steps.len() as u64;
+      rep.evaluations += steps.len() as u64;
+      // how the history reads up to a step, compressed: runs of the same role and template are counted
+      let describe = |upto: usize| -> String {
+        let mut parts: Vec<String> = vec![];
+        let mut k = 0;
+        while k <= upto {
+          match steps[k].role {
+            Role::First(_) => {
+              let mut j = k;
+              while j + 1 <= upto && matches!(steps[j + 1].role, Role::First(_)) {
+                j += 1;
+              }
+              parts.push(format!("[the fixed set, {} expressions, first time]", j - k + 1));
+              k = j + 1;
+            }
+            Role::Again(_) if k < upto => {
+              let mut j = k;
+              while j + 1 < upto && matches!(steps[j + 1].role, Role::Again(_)) {
+                j += 1;
+              }
+              parts.push(format!("[{} expressions of the fixed set again]", j - k + 1));
+              k = j + 1;
+            }
+            Role::Fail if k + 3 <= upto && matches!(steps[k + 2].role, Role::Fail) && !name.starts_with("failing") => {
+              // a run of (fail, ok) pairs of one template with the numbers 1..n
+              let mut j = k;
+              while j + 2 <= upto && matches!(steps[j + 2].role, Role::Fail) && matches!(steps[j + 1].role, Role::Ok(_)) {
+                j += 2;
+              }
+              parts.push(format!("{} ; {} ; … and so on with the numbers up to {} ({} evaluations)", steps[k].text, steps[k + 1].text, (j - k) / 2 + 1, j - k + 2));
+              k = j + 2;
+            }
+            _ => {
+              parts.push(steps[k].text.clone());
+              k += 1;
+            }
+          }
+        }
+        parts.join(" ; ")
+      };
+      let mut first: BTreeMap<usize, (String, Option<String>)> = BTreeMap::new();
+      let mut reqs: Vec<(usize, String)> = vec![];
+      let mut reported = false;
+      for (k, (st, o)) in steps.iter().zip(obs.iter()).enumerate() {
+        if let Some(r) = &o.request {
+          reqs.push((k, r.clone()));
+        }
+        match st.role {
+          Role::First(i) => {
+            first.insert(i, (o.implementation.clone(), o.prepared.clone()));
+            rep.case(&format!("long|{}|{}", scoped, st.text), true);
+          }
+          Role::Again(i) => {
+            if let Some((f, fp)) = first.get(&i) {
+              rep.hit("long-sequence:fixed expression evaluated again");
+              let bad = if *f != o.implementation {
+                Some((o.implementation.clone(), f.clone(), "parsed and evaluated again"))
+              } else if o.prepared.is_some() && fp.is_some() && o.prepared != *fp {
+                Some((o.prepared.clone().unwrap(), fp.clone().unwrap(), "its prepared evaluator called again"))
+              } else {
+                None
+              };
+              if let Some((now, then, how)) = bad {
+                if !reported {
+                  reported = true;
+                  rep.disagree(
+                    Kind::ImplVsSpec,
+                    "repeat_long_sequence",
+                    &format!("an expression gives another value after a long history of evaluations in the same thread, in the same scope (the history fails by: {})", class),
+                    &format!("{}; in one fresh thread, in this order: {} ;; then {} ({})", variant, describe(k), st.text, how),
+                    &now,
+                    &then,
+                  );
+                }
+              }
+            }
+          }
+          Role::Fail => {
+            if o.implementation.starts_with("(ok null") || o.implementation == "(builderror)" || o.implementation == "(unparsable)" {
+              n_fail_null += 1;
+              rep.hit(&format!("long-sequence:failing:{}", class));
+            } else if o.implementation.starts_with("(panic") {
+              rep.hit("long-sequence:failing expression panics (observed, judged by C05)");
+            } else {
+              rep.hit("long-sequence:an expression meant to fail has a value");
+              if std::env::var("VHARNESS_C13_TRACE").is_ok() {
+                eprintln!("HASVALUE {} => {}", st.text, o.implementation);
+              }
+            }
+            if o.implementation.ends_with(" changed)") {
+              rep.disagree(Kind::ImplVsSpec, "scope_preserved", "a failing evaluation changed the caller's scope", &st.text, &o.implementation, "scope unchanged");
+            }
+          }
+          Role::Ok(ref value) => {
+            rep.hit("long-sequence:succeeding expression");
+            let expected = format!("(ok {} same)", value);
+            if o.implementation != expected && !reported {
+              reported = true;
+              rep.disagree(
+                Kind::ImplVsSpec,
+                "repeat_long_sequence",
+                &format!("an evaluation that succeeds in a fresh thread gives another value after a long history of evaluations in the same thread (the history fails by: {})", class),
+                &format!("{}; in one fresh thread, in this order: {}", variant, describe(k)),
+                &o.implementation,
+                &expected,
+              );
+            }
+          }
+          Role::Loop(ref values) => {
+            rep.hit("long-sequence:loop");
+            // the second component of every element against the written-out value
+            let got: Option<Vec<String>> = Sexp::parse(&o.implementation).as_ref().and_then(|x| x.as_list()).and_then(|xs| xs.get(1)).and_then(|l| l.as_list()).map(|items| {
+              items.iter().skip(1).map(|it| it.as_list().and_then(|p| p.get(2)).map(|v| v.to_string()).unwrap_or_default()).collect()
+            });
+            let bad = match &got {
+              Some(g) => g.len() != values.len() || g.iter().zip(values.iter()).any(|(a, b)| a != b),
+              // a text the parser rejects (the same text every time, in a scope of the same names) is not judged here
+              None => o.implementation != "(unparsable)",
+            };
+            if o.implementation == "(unparsable)" {
+              rep.hit("long-sequence:loop text rejected by the parser");
+            }
+            if bad && !reported {
+              reported = true;
+              let at = got.as_ref().and_then(|g| g.iter().zip(values.iter()).position(|(a, b)| a != b)).map(|p| format!("first at iteration {}", p + 1)).unwrap_or_else(|| "not a list of that length".into());
+              rep.disagree(
+                Kind::ImplVsSpec,
+                "repeat_long_sequence",
+                &format!("inside one loop over a failing and a succeeding evaluation, the succeeding one stops giving its value (the failing one fails by: {})", class),
+                &format!("{}; in one fresh thread, in this order: {}", variant, describe(k)),
+                &format!("{}: {}", at, o.implementation),
+                &format!("second components {}", values.join(" ")),
+              );
+            }
+          }
+        }
+      }
+      // ---- the Lean model on the steps that asked (wrapped variant only: a function value in the scope has no body on the wire)
+      if !scoped && !reqs.is_empty() {
+        let answers = model.ask_batch(&reqs.iter().map(|(_, r)| r.clone()).collect::<Vec<_>>());
+        asked += answers.len() as u64;
+        for ((k, _), both) in reqs.iter().zip(answers.iter()) {
+          let (m_ans, spec) = match Sexp::parse(both).as_ref().and_then(|x| x.as_list()) {
+            Some([m, d]) => (m.to_string(), d.to_string()),
+            Some([m, d, _]) => (m.to_string(), d.to_string()),
+            _ => (both.clone(), both.clone()),
+          };
+          if m_ans == "(unsupported)" || spec == "(unsupported)" {
+            rep.hit("long-sequence:model:unsupported (built-in function)");
+            continue;
+          }
+          let st = &steps[*k];
+          let o = &obs[*k];
+          rep.hit("long-sequence:model:compared");
+          if o.implementation.starts_with("(panic") {
+            continue;
+          }
+          match st.role {
+            Role::Loop(_) => {
+              if o.implementation != spec {
+                rep.disagree(
+                  Kind::ImplVsSpec,
+                  "long_loop_eq_den",
+                  &format!("one expression looping over a failing and a succeeding evaluation has another value than the FEEL semantics gives it (the failing one fails by: {})", class),
+                  &format!("{}; in one fresh thread, in this order: {}", variant, describe(*k)),
+                  &o.implementation,
+                  &spec,
+                );
+              }
+            }
+            _ => {
+              if o.implementation != m_ans {
+                let sig = if m_ans.starts_with("(error") { "driver-error (long sequences)" } else { "evaluation differs from model (long sequences)" };
+                rep.disagree(Kind::ImplVsModel, "eval", sig, &wrapped(&st.text), &o.implementation, &m_ans);
+              }
+            }
+          }
+        }
+      }
+    }
+  }
+  rep.model_requests += model.requests;
+  rep.extra.insert(
+    "long_sequences".into(),
+    json!({
+      "histories": n_histories,
+      "evaluations": n_evaluations,
+      "failing_evaluations": n_fail_null,
+      "fixed_set": fixed.len(),
+      "failing_classes": classes.iter().map(|(c, ts)| json!({"class": c, "templates": ts})).collect::<Vec<_>>(),
+      "compared_with_lean": asked,
     }),
   );
 }
